@@ -4,10 +4,11 @@ reflects the holidays a key was last registered with.
 Python here only renders abstract inputs (ordinals, holiday lists, weekend lists) into real Calendar
 objects and datetimes, calls the public API, and encodes what came back.  Every expectation is printed
 by TLC (MC_Calendar / MC_CalendarReg generators) or decided by TLC (Trace_Calendar)."""
-import datetime, signal
+import datetime, os, signal
 import numpy as np
 
 from harness.core import Machinery
+from harness import tlc
 
 JVM = {'JAVA_TOOL_OPTIONS': '-Xss32m'}     # deep (but finite) recursion of the day-by-day operators
 CPU_LIMIT = 3.0       # virtual CPU seconds for one public call (calls take < 1 ms when they terminate)
@@ -15,6 +16,64 @@ PER_SIG = 25          # violations listed per (clause, op); further ones of the 
 MAX_HUNG = 20         # stop replaying after this many calls that did not terminate (the verdict is settled)
 _sig = {}
 _hung = [0]
+
+
+class Collector(object):
+    """what a replay worker process collects instead of writing into ctx (merged by the parent, in order)"""
+    def __init__(self):
+        self.viol, self.notes, self.samples, self.assumptions = [], [], [], []
+        self.evals = self.traces = 0
+        self.extra = {}
+
+    def violation(self, clause, case, detail=None):
+        self.viol.append((clause, case, detail))
+
+    def note(self, key):
+        self.notes.append(key)
+
+    def sample(self, x, limit=5):
+        if len(self.samples) < limit:
+            self.samples.append(x)
+
+
+def nproc():
+    return max(1, min(16, int(os.environ.get('VERIF_TLC_WORKERS', 16)), os.cpu_count() or 1))
+
+
+def _worker(args):
+    fn, chunk, k0 = args
+    signal.signal(signal.SIGVTALRM, _alarm)
+    _sig.clear(); _hung[0] = 0; _reported.clear()
+    col = Collector()
+    fn(col, chunk, k0)
+    return col
+
+
+def spread(ctx, fn, items):
+    """fn(collector, chunk, index of its first item) over contiguous chunks of `items` in forked worker processes
+    (each has its own pyg_base registry); what they collected is merged into ctx in the order of the items, so the
+    outcome does not depend on the number of processes"""
+    import multiprocessing
+    n = nproc()
+    size = max(1, -(-len(items) // (4 * n)))
+    jobs = [(fn, items[i:i + size], i) for i in range(0, len(items), size)]
+    if n == 1 or len(jobs) == 1:
+        cols = [_worker(j) for j in jobs]
+        signal.signal(signal.SIGVTALRM, _alarm)
+    else:
+        with multiprocessing.get_context('fork').Pool(n) as pool:
+            cols = pool.map(_worker, jobs, chunksize=1)
+    for col in cols:
+        ctx.evals += col.evals; ctx.traces += col.traces
+        for clause, case, detail in col.viol:
+            record(ctx, clause, case, detail)
+        for k in col.notes:
+            ctx.note(k)
+        for x in col.samples:
+            ctx.sample(x)
+        for a in col.assumptions:
+            if a not in ctx.assumptions:
+                ctx.assumptions.append(a)
 
 
 def record(ctx, clause, case, detail):
@@ -75,9 +134,9 @@ def _call(cal, q):
     if op == 'add':
         return cal.add(D(t), n, *adj) if (t + n) % 2 else cal.add(D(t), n, **kadj)
     if op == 'dt_bump':
-        return cal.dt_bump(D(t), ('+%db' % n) if (n > 0 and t % 2) else ('%db' % n))
+        return cal.dt_bump(D(t), ('+%db' % n) if (n > 0 and t % 2) else ('%db' % n), **kadj)
     if op == 'bump0':
-        return cal.dt_bump(D(t), '+0b' if n >= 0 else '-0b')
+        return cal.dt_bump(D(t), '+0b' if n >= 0 else '-0b', *adj)
     if op == 'bdays':
         return cal.bdays(D(t), D(u), *adj)
     if op == 'drange':
@@ -90,6 +149,9 @@ def _call(cal, q):
         return cal.bdays(D(t), cal.add(D(t), n, *adj), *adj)
     if op == 'add_twice':
         return cal.add(cal.add(D(t), n, *adj), n, *adj)
+    if op == 'add_split':
+        s = 1 if n > 0 else -1
+        return cal.add(cal.add(D(t), n - s, **kadj), s, *adj)
     raise Machinery('unknown query %r' % (q,))
 
 
